@@ -645,6 +645,29 @@ def braces_hint(pattern: str) -> str:
     return "no-braces"
 
 
+def normalise_braces(pattern: str) -> str:
+    """``{ 2 , 3 }`` -> ``{2,3}`` and non-ASCII decimal digits -> ASCII inside braces."""
+    import unicodedata
+
+    def fix(m: "re.Match[str]") -> str:
+        body = m.group(1)
+        out = []
+        for c in body:
+            if c in " \t":
+                continue
+            if c.isdigit() and c not in "0123456789":
+                d = unicodedata.digit(c, None)
+                if d is None:
+                    return m.group(0)
+                out.append(str(d))
+            else:
+                out.append(c)
+        text = "".join(out)
+        return "{" + text + "}" if re.fullmatch(r"[0-9]*,?[0-9]*", text) else m.group(0)
+
+    return _BRACES_RE.sub(fix, pattern)
+
+
 def pattern_flags(pattern: Any) -> Set[str]:
     """Construct kinds seen by Python (or in a retree tree): used for strata and keys."""
     ir = to_ir(pattern)
